@@ -27,7 +27,8 @@ pub fn first_cr(input: &[u8]) -> Option<usize> {
 /// without any CR (statement of C18).
 pub fn closed(input: &[u8]) -> bool {
     match first_cr(input) {
-        Some(p) => p + 1 < input.len(),
+        // ... or the first 107 bytes held no CR (a CR that arrives later cannot reopen the verdict)
+        Some(p) => p + 1 < input.len() || p >= MAX_LINE,
         None => input.len() >= MAX_LINE,
     }
 }
